@@ -172,6 +172,15 @@ class OdxLinkDatabase:
     def __init__(self) -> None:
         self._db: Dict[OdxDocFragment, Dict[str, Any]] = {}
 
+    def __copy__(self) -> "OdxLinkDatabase":
+        # the copy must not share the per-document-fragment
+        # dictionaries with the original: otherwise objects added to
+        # the copy also become visible via the original database
+        result = OdxLinkDatabase()
+        result._db = {doc_frag: dict(frag_db) for doc_frag, frag_db in self._db.items()}
+
+        return result
+
     @overload
     def resolve(self, ref: OdxLinkRef, expected_type: None = None) -> Any:
         ...
